@@ -245,8 +245,12 @@ def feq(a, b):
 
 def sample_nbt():
     import pynbt
+    # boundary shapes: an empty key, a nested compound with an empty key,
+    # an empty string value, a list
     return pynbt.TAG_Compound({
-        'a': pynbt.TAG_Int(7), 'name': pynbt.TAG_String('x'),
+        'a': pynbt.TAG_Int(7), 'name': pynbt.TAG_String(''),
+        '': pynbt.TAG_Byte(1),
+        'c': pynbt.TAG_Compound({'': pynbt.TAG_Long(-1)}),
         'l': pynbt.TAG_List(pynbt.TAG_Byte, [pynbt.TAG_Byte(1)])})
 
 
